@@ -20,12 +20,22 @@ import (
 //	src_determination_is_cas  ... the action transformer's decision is one atomic CompareAndSwap
 //	src_subprocess_registers  subprocess.go newSubProcess: the sub-process registers as an event consumer (a call of
 //	                          RegisterEventConsumer) while it is built
+//	src_determination_flag_per_activation
+//	                          gateway_event_based.go: the variable the compare-and-swap decides on is declared inside the
+//	                          case that handles one token's arrival (one flag per activation), not a field of the node
+//	                          or a variable that outlives the case
+//	src_join_counter_bits     gateway_parallel.go: narrowest integer field of struct parallelGateway (int, uint = 64)
+//	src_join_counter_resets   ... a method of parallelGateway assigns 0 to such a field (the arrival counter starts
+//	                          again when the gateway fires, it does not run on)
 type protoFacts struct {
 	SubProcessRegisters bool
 	ActiveBeforeArm     bool
 	TermChanCapacity    int
 	TermChanTableKept   bool
 	DeterminationIsCAS  bool
+	FlagPerActivation   bool
+	JoinCounterBits     int
+	JoinCounterResets   bool
 }
 
 func findMethod(f *ast.File, recv, name string) *ast.FuncDecl {
@@ -152,7 +162,7 @@ func protocolFacts(c *factsCtx) (pf protoFacts) {
 			pf.TermChanCapacity = 0
 		}
 		pf.TermChanTableKept = true
-		cas := false
+		cas, flagLocal := false, false
 		ast.Inspect(run.Body, func(n ast.Node) bool {
 			lit, ok := n.(*ast.FuncLit)
 			if !ok {
@@ -172,6 +182,27 @@ func protocolFacts(c *factsCtx) (pf protoFacts) {
 					if call, ok := y.Cond.(*ast.CallExpr); ok {
 						if se, ok := call.Fun.(*ast.SelectorExpr); ok && strings.HasPrefix(se.Sel.Name, "CompareAndSwap") {
 							cas = true
+							// what is decided on: atomic.CompareAndSwapX(&v, ..) or v.CompareAndSwap(..)
+							var target ast.Expr = se.X
+							if pkg, ok := se.X.(*ast.Ident); ok && pkg.Name == "atomic" && len(call.Args) > 0 {
+								target = call.Args[0]
+								if u, ok := target.(*ast.UnaryExpr); ok {
+									target = u.X
+								}
+							}
+							if id, ok := target.(*ast.Ident); ok && id.Obj != nil {
+								// declared inside the innermost case clause that contains this function literal
+								var cc *ast.CaseClause
+								ast.Inspect(run.Body, func(k ast.Node) bool {
+									if c, ok := k.(*ast.CaseClause); ok && c.Pos() <= lit.Pos() && lit.End() <= c.End() {
+										cc = c
+									}
+									return true
+								})
+								if cc != nil && cc.Pos() <= id.Obj.Pos() && id.Obj.Pos() <= cc.End() {
+									flagLocal = true
+								}
+							}
 						}
 					}
 				}
@@ -180,6 +211,62 @@ func protocolFacts(c *factsCtx) (pf protoFacts) {
 			return true
 		})
 		pf.DeterminationIsCAS = cas
+		pf.FlagPerActivation = cas && flagLocal
+	}
+	// --- gateway_parallel.go
+	if f := c.parse("gateway_parallel.go"); f == nil {
+		c.fail("protocol facts: gateway_parallel.go not found")
+	} else {
+		width := func(t string) int {
+			switch t {
+			case "int", "uint", "int64", "uint64", "uintptr":
+				return 64
+			case "int32", "uint32", "rune":
+				return 32
+			case "int16", "uint16":
+				return 16
+			case "int8", "uint8", "byte":
+				return 8
+			}
+			return 0
+		}
+		counters := map[string]bool{}
+		ast.Inspect(f, func(n ast.Node) bool {
+			ts, ok := n.(*ast.TypeSpec)
+			if !ok || ts.Name.Name != "parallelGateway" {
+				return true
+			}
+			if st, ok := ts.Type.(*ast.StructType); ok {
+				for _, fl := range st.Fields.List {
+					if w := width(nodeText(c.fset, fl.Type)); w > 0 {
+						for _, nm := range fl.Names {
+							counters[nm.Name] = true
+						}
+						if pf.JoinCounterBits == 0 || w < pf.JoinCounterBits {
+							pf.JoinCounterBits = w
+						}
+					}
+				}
+			}
+			return false
+		})
+		if pf.JoinCounterBits == 0 {
+			c.fail("protocol facts: struct parallelGateway has no integer field")
+		}
+		for _, d := range f.Decls {
+			fd, ok := d.(*ast.FuncDecl)
+			if !ok || fd.Recv == nil || fd.Body == nil || !strings.Contains(nodeText(c.fset, fd.Recv.List[0].Type), "parallelGateway") {
+				continue
+			}
+			ast.Inspect(fd.Body, func(n ast.Node) bool {
+				if as, ok := n.(*ast.AssignStmt); ok && as.Tok == token.ASSIGN && len(as.Lhs) == 1 && len(as.Rhs) == 1 {
+					if se, ok := as.Lhs[0].(*ast.SelectorExpr); ok && counters[se.Sel.Name] && nodeText(c.fset, as.Rhs[0]) == "0" {
+						pf.JoinCounterResets = true
+					}
+				}
+				return true
+			})
+		}
 	}
 	return
 }
@@ -187,8 +274,8 @@ func protocolFacts(c *factsCtx) (pf protoFacts) {
 func init() {
 	factGens = append(factGens, func(c *factsCtx) {
 		pf := protocolFacts(c)
-		fmt.Fprintf(&c.out, "(* protocol facts read off the sources (harness/protocol.go) *)\nDefinition src_active_before_arm : bool := %v.\nDefinition src_termchan_capacity : nat := %d.\nDefinition src_termchan_table_kept : bool := %v.\nDefinition src_determination_is_cas : bool := %v.\nDefinition src_subprocess_registers : bool := %v.\n\n",
-			pf.ActiveBeforeArm, pf.TermChanCapacity, pf.TermChanTableKept, pf.DeterminationIsCAS, pf.SubProcessRegisters)
+		fmt.Fprintf(&c.out, "(* protocol facts read off the sources (harness/protocol.go) *)\nDefinition src_active_before_arm : bool := %v.\nDefinition src_termchan_capacity : nat := %d.\nDefinition src_termchan_table_kept : bool := %v.\nDefinition src_determination_is_cas : bool := %v.\nDefinition src_subprocess_registers : bool := %v.\nDefinition src_determination_flag_per_activation : bool := %v.\nDefinition src_join_counter_bits : N := %d%%N.\nDefinition src_join_counter_resets : bool := %v.\n\n",
+			pf.ActiveBeforeArm, pf.TermChanCapacity, pf.TermChanTableKept, pf.DeterminationIsCAS, pf.SubProcessRegisters, pf.FlagPerActivation, pf.JoinCounterBits, pf.JoinCounterResets)
 	})
 	commands["protocol"] = func(env *Env) {
 		c := &factsCtx{repo: env.Repo, fset: token.NewFileSet()}
